@@ -57,13 +57,10 @@ def nonTrivial : Bool :=
   accesses.any (fun a => a.field == "RIB.pendingEntries" && a.write) &&
   accesses.any (fun a => a.field == "Client.pendq" && a.write) && accesses.length > 60
 
-def ok : Bool := guarded && sendsHaveStop && lockOrderAcyclic && nonTrivial
 
-theorem facts_guarded : guarded = true := by decide
-theorem facts_sendsHaveStop : sendsHaveStop = true := by decide
-theorem facts_lockOrderAcyclic : lockOrderAcyclic = true := by decide
-theorem facts_nonTrivial : nonTrivial = true := by decide
-theorem facts_ok : ok = true := by
-  simp only [ok, facts_guarded, facts_sendsHaveStop, facts_lockOrderAcyclic, facts_nonTrivial, Bool.and_self]
+/-- the operations that change the RIB are serialised by one mutex held for the whole call, so a
+sequence of model steps (each atomic) is an adequate model of concurrent sessions (D20) -/
+def txSerialised : Bool :=
+  ["RIB.AddEntry", "RIB.DeleteEntry", "RIB.Flush"].all (fun f => fnLocks.contains (f, "txMu", true))
 
 end Gribi.FactsOk
